@@ -200,6 +200,7 @@ class Bundle:
         if name is not None and val.name is not None:  # Both set, fail.
             msg = f"{val} with conflicting names {name} and {val.name} cannot be added to Bundle {self.name}"
             raise RuntimeError(msg)
+        _assert_addable(self, val, name if name is not None else val.name)
         if name is not None:  # One or the other set - great.
             val.name = name
 
@@ -251,6 +252,8 @@ class Bundle:
         # Check it's a valid attribute-type
         assert_bundle_attr(self, val)
 
+        _assert_addable(self, val, key)
+
         # Checks out! Name `val` and add it to our type-based containers.
         val.name = key
         _add(bundle=self, val=val)
@@ -261,6 +264,11 @@ class Bundle:
         if key in ns:
             return ns[key]
         return object.__getattribute__(self, key)
+
+    def __delattr__(self, __name: str) -> None:
+        """Disable attribute deletion."""
+        msg = f"Cannot delete Bundle attribute {__name} of {self}"
+        raise RuntimeError(msg)
 
     def __call__(self, **kwargs):
         """Calls to Bundles return Bundle Instances"""
@@ -275,6 +283,25 @@ class Bundle:
         if self.name:
             return f"Bundle(name={self.name})"
         return f"Bundle(_anon_)"
+
+
+# Names which cannot be used for HDL attributes: the protected ones, plus the other native `Bundle` attributes
+_reserved = _banned + ["name", "roles", "Roles", "props", "add", "get"]
+
+
+def _assert_addable(bundle: Bundle, val: BundleAttr, name: str) -> None:
+    """Raise a `RuntimeError` if `val` cannot be added to `bundle` as `name`.
+    Called before `val` is modified in any way."""
+
+    if name in _reserved:
+        msg = f"Invalid attribute name {name} for {val} in Bundle {bundle}"
+        raise RuntimeError(msg)
+    if bundle._elaborated:
+        raise RuntimeError(f"Cannot add {val} to {bundle} after elaboration.")
+    for key, attr in bundle.namespace.items():
+        if attr is val and key != name:
+            msg = f"Cannot add {val} to {bundle} as {name}: it is already its attribute {key}"
+            raise RuntimeError(msg)
 
 
 def _add(bundle: Bundle, val: BundleAttr) -> BundleAttr:
@@ -298,6 +325,13 @@ def _add(bundle: Bundle, val: BundleAttr) -> BundleAttr:
         # Nonetheless gotta raise an error if we get here, somehow.
         msg = f"Invalid Bundle attribute {val} for {bundle}"
         raise TypeError(msg)
+
+    # Remove any prior attribute of the same name, which may be of another kind
+    prior = bundle.namespace.get(val.name, None)
+    if prior is not None and prior is not val:
+        prior._parent_bundle = None  # No longer ours
+    bundle.signals.pop(val.name, None)
+    bundle.bundles.pop(val.name, None)
 
     # Add it to the bundle namespace, and the type-specific container
     type_ctr[val.name] = val
